@@ -376,11 +376,21 @@ func Supervise(self string, chk *Check, tier string, seed int64) int {
 	var lines []string
 	nviol := 0
 	flaky := 0
+	unreplayed := 0
+	replayStart := time.Now()
 	var knownLines []string
 	for _, sig := range order {
 		v := bySig[sig]
 		if kf := known.match(v); kf != nil {
 			knownLines = append(knownLines, fmt.Sprintf("KNOWN-FINDING: property=%s %s [%s] (%d cases)", chk.ID, kf.What, sig, counts[sig]))
+			continue
+		}
+		// Replaying is what makes a report believable, but a change that carries state from one call to
+		// the next can produce hundreds of signatures whose replays need the cases that preceded them.
+		// Once a violation is established, later signatures are replayed only while the replay budget
+		// (20 established signatures or 3 minutes) lasts; the rest are counted, not printed.
+		if nviol >= 1 && (nviol >= 20 || time.Since(replayStart) > 3*time.Minute) {
+			unreplayed++
 			continue
 		}
 		file := writeReplay(v, 0)
@@ -432,6 +442,9 @@ func Supervise(self string, chk *Check, tier string, seed int64) int {
 			fmt.Fprintf(os.Stderr, "--- %s (%d cases)\n    case: %s\n    observed: %s\n    allowed: %s\n", sig, counts[sig], v.Human, firstLines(v.Observed, 12), v.Allowed)
 		}
 		exit = 1
+	}
+	if unreplayed > 0 {
+		fmt.Fprintf(os.Stderr, "%d further signature(s) were not replayed (replay budget used after %d established violation(s))\n", unreplayed, nviol)
 	}
 	for _, l := range knownLines {
 		fmt.Println(l)
